@@ -397,6 +397,9 @@ func (g *Gen) heap(st *State, sort string) Term {
 		if sort == "Held" {
 			es = SBool
 		}
+		if sort == "Avail" {
+			es = bvSort(64)
+		}
 		g.declareConst(name, arraySort(SLoc, es))
 		h = T(arraySort(SLoc, es), name)
 		g.heapInit[sort] = h
